@@ -128,6 +128,11 @@ func (fs *fsMutable) deleteNSEntry(p fuseops.InodeID, c string) error {
 		pNode.attr.Nlink--
 	}
 
+	// the entry no longer has a name: once the kernel forgets it, the node may go
+	cNode.lock.Lock()
+	cNode.attr.Nlink = 0
+	cNode.lock.Unlock()
+
 	fs.lookupTree, _, _ = fs.lookupTree.Delete(lk)
 	children := fs.readDirMap[p]
 	// Delete from parent read dir
@@ -738,17 +743,9 @@ func getPathToBackingFile(iNode fuseops.InodeID) string {
 }
 
 func shouldDelete(n *nodeEntry) bool {
-	// LookupCount should be zero.
-	if n.attr.Mode.IsDir() {
-		if n.refCount == 0 {
-			return true
-		}
-	} else {
-		if n.refCount == 0 && n.attr.Nlink == 0 {
-			return true
-		}
-	}
-	return false
+	// A node goes when the kernel holds no reference to it (LookupCount is zero) AND it has no name left:
+	// a directory that is merely evicted from the kernel's cache is still there, and will be looked up again.
+	return n.refCount == 0 && n.attr.Nlink == 0
 }
 
 type commitChans struct {
